@@ -441,6 +441,23 @@ func challengeAll() {
 			}
 		}
 	}
+	// size classes of one AV pair and of the whole list: the 16-bit lengths around 2^15 and up
+	// to the largest list a 16-bit descriptor can designate
+	for bi, vls := range [][]int{{32766}, {32767}, {32768}, {32769}, {40000}, {65527}, {65000, 0, 8}, {8, 32768, 16}, {30000, 30000}, {16384, 16384, 16384}, {255, 256, 257, 65535 - 5*4 - 255 - 256 - 257}} {
+		for rep := 0; rep < 2; rep++ {
+			c := genChallenge(rng, rep == 0, rep == 1, true, true, []int{6, 0}[rep], 0, 0)
+			c.pairs = nil
+			for k, vl := range vls {
+				c.pairs = append(c.pairs, avPair{uint16([]int{2, 1, 4, 3, 7, 9}[k]), gen.Bytes(rng, vl)})
+			}
+			c.spec.TargetInfo = encodeAV(c.pairs)
+			if len(c.spec.TargetInfo) > 65535 {
+				r.Inconclusive(fmt.Sprintf("big target info case %d does not fit a 16-bit descriptor", bi))
+				continue
+			}
+			challengeCase(c, fmt.Sprintf("%s|big%d", chalTag(c), bi))
+		}
+	}
 	n := r.Pick(60000, 1000000)
 	for t := 0; t < n; t++ {
 		uni := rng.IntN(3) != 0
